@@ -195,7 +195,7 @@ func runC13(c *fw.Ctx) {
 			c.Count("change:"+k, int64(n))
 		}
 		// thorough tier and every 4th quick case: two GC passes after the rollback, checkpoint must stay resolvable
-		if !c.Quick() || c.Idx%4 == 0 {
+		if !c.Quick() || (c.Idx/16+c.Idx)%4 == 0 {
 			for i := 0; i < 2; i++ {
 				c.Tracef("gc (after rollback)")
 				_ = t.DeleteNodes()
